@@ -12,7 +12,7 @@ open HL.Generated.Facts
 theorem serial_dispatch : asyncDispatch = false := by decide
 
 theorem goroutines_known :
-    serverGoroutines = ["DidChange->publishDiagnostics", "DidChangeConfiguration->refreshConfiguration",
-      "DidOpen->publishDiagnostics", "Initialized->refreshConfiguration"] := by decide
+    serverGoroutines = ["DidChangeConfiguration->refreshConfiguration", "DidOpen->publishDiagnosticsVersion",
+      "Initialized->refreshConfiguration", "didChange->publishDiagnosticsVersion"] := by decide
 
 end HL.Generated.Expect
